@@ -19,7 +19,7 @@ Theorem C04_encoding :
      sat_hard mu inst = true /\ violated_weight mu inst <= cost_of m co) /\
   (forall mu, exists m, length m = length vi /\ agrees vi m mu /\
      sat_problem m P = sat_hard mu inst /\ cost_of m co = violated_weight mu inst) /\
-  Z.to_nat (problem_nbvars P) = length vi /\
+  Z.to_nat (Z.max (problem_nbvars P) (Z.of_nat (length vi))) = length vi /\
   nonneg_terms co = true /\ cost_wf (length vi) co = true.
 Proof. exact encode_correct. Qed.
 Print Assumptions C04_encoding.
@@ -64,27 +64,27 @@ Theorem C04_projection :
 Proof. exact maxsat_projection. Qed.
 Print Assumptions C04_projection.
 
-(* Outside wf_inst the faithful mirror (and the Go code) fails: *)
+(* wf_inst only asks for non-zero literals, a coefficient list that is absent or as long
+   as the literal list, and weights >= 0.  The inputs on which the Go code failed before
+   it was fixed are inside wf_inst and answered correctly: *)
 
-(* a negative coefficient in a soft constraint: answers Unsat although the hard part is
-   satisfiable *)
-Theorem C04_negative_coeff_refuted :
-  exists inst mu, sat_hard mu inst = true /\ maxsat_ref inst = MUnsat.
-Proof. exact maxsat_negative_coeff_refuted. Qed.
-Print Assumptions C04_negative_coeff_refuted.
+(* a negative coefficient in a soft constraint (was: Unsat) *)
+Example C04_negative_coeff_ok :
+  wf_inst [hard_clause [1]; weighted_pb [1] [-3] (-1) 1] = true /\
+  maxsat_ref [hard_clause [1]; weighted_pb [1] [-3] (-1) 1] = MSat [(1, true)] 1.
+Proof. exact maxsat_negative_coeff_ok. Qed.
 
-(* a soft PB constraint with AtLeast = 0 in last position: panic in Minimize *)
-Theorem C04_atleast0_panics :
-  exists inst mu, sat_hard mu inst = true /\ maxsat_ref inst = MGoPanic.
-Proof. exact maxsat_atleast0_panics. Qed.
-Print Assumptions C04_atleast0_panics.
+(* a soft PB constraint with AtLeast = 0 in last position (was: panic in Minimize) *)
+Example C04_atleast0_ok :
+  wf_inst [hard_clause [1]; weighted_pb [1] [1] 0 2] = true /\
+  maxsat_ref [hard_clause [1]; weighted_pb [1] [1] 0 2] = MSat [(1, true)] 0.
+Proof. exact maxsat_atleast0_ok. Qed.
 
-(* a coefficient 0 on the last new variable: it is missing from the returned model *)
-Theorem C04_zero_coeff_refuted :
-  exists inst res w, maxsat_ref inst = MSat res w /\
-    In 2 (inst_names inst) /\ ~ In 2 (map fst res).
-Proof. exact maxsat_zero_coeff_refuted. Qed.
-Print Assumptions C04_zero_coeff_refuted.
+(* a coefficient 0 on the last new variable (was: missing from the returned model) *)
+Example C04_zero_coeff_ok :
+  wf_inst [hard_pb [1; 2] [1; 0] 1] = true /\
+  maxsat_ref [hard_pb [1; 2] [1; 0] 1] = MSat [(1, true); (2, false)] 0.
+Proof. exact maxsat_zero_coeff_ok. Qed.
 
 (* ---------------- the WCNF route ---------------- *)
 
@@ -102,14 +102,15 @@ Theorem C04_wcnf_encoding :
 Proof. exact wcnf_encode_correct. Qed.
 Print Assumptions C04_wcnf_encoding.
 
-(* Optimal with a results channel (what the gophersat command uses).  A clause is hard
+(* Optimal with a results channel (what the gophersat command uses).  wf_wcnf: nbVars >= 0,
+   every line is  weight l1..lk 0  with weight >= 0 and 0 < |li| <= nbVars.  A clause is hard
    iff top <> 0 and weight >= top ([wl_soft]).  The returned model has exactly nbVars
    entries (no relaxation variable), everything streamed is a hard-feasible assignment
    of the declared variables with an upper bound of its violated weight, the weights
    strictly decrease and the last streamed result is the returned one. *)
 Theorem C04_wcnf :
   forall solve, solver_ok solve ->
-  forall w, wf_wcnf w = true -> wcnf_covers w = true ->
+  forall w, wf_wcnf w = true ->
   match wcnf_optimal_chan solve w with
   | WPanic => False
   | WDone OUnsat s => (forall mu, w_sat_hard mu w = false) /\ s = [OUnsat]
@@ -126,34 +127,45 @@ Theorem C04_wcnf :
 Proof. exact wcnf_chan_correct. Qed.
 Print Assumptions C04_wcnf.
 
-(* Optimal(nil, stop): the relaxation variables leak into the returned model ... *)
-Theorem C04_wcnf_nil_leak_refuted :
-  exists w m c, wf_wcnf w = true /\ wcnf_covers w = true /\
-    wcnf_optimal_nil_ref w = WDone (OSat m c) [] /\ Z.of_nat (length m) <> w_nbvars w.
-Proof. exact wcnf_nil_leak_refuted. Qed.
-Print Assumptions C04_wcnf_nil_leak_refuted.
-
-(* ... the result is right once the caller drops them. *)
-Theorem C04_wcnf_nil_partial :
+(* Optimal(nil, stop): the same, trimmed, result; nothing is streamed. *)
+Theorem C04_wcnf_nil :
   forall solve, solver_ok solve ->
-  forall w, wf_wcnf w = true -> wcnf_covers w = true ->
+  forall w, wf_wcnf w = true ->
   match wcnf_optimal_nil solve w with
   | WPanic => False
   | WDone OUnsat _ => forall mu, w_sat_hard mu w = false
   | WDone (OSat m c) _ =>
-      length m = (Z.to_nat (w_nbvars w) + w_nsoft w)%nat /\
-      let mu := firstn (Z.to_nat (w_nbvars w)) m in
-      w_sat_hard mu w = true /\ c = w_violated mu w /\
+      length m = Z.to_nat (w_nbvars w) /\
+      w_sat_hard m w = true /\ c = w_violated m w /\
       (forall mu', w_sat_hard mu' w = true -> c <= w_violated mu' w)
   end.
-Proof. exact wcnf_nil_partial. Qed.
-Print Assumptions C04_wcnf_nil_partial.
+Proof. exact wcnf_nil_correct. Qed.
+Print Assumptions C04_wcnf_nil.
 
-(* Without wcnf_covers (only hard clauses and the last declared variable unused): panic. *)
-Theorem C04_wcnf_unused_var_panics :
-  exists w mu, wf_wcnf w = true /\ w_sat_hard mu w = true /\ wcnf_optimal_chan_ref w = WPanic.
-Proof. exact wcnf_unused_var_panics. Qed.
-Print Assumptions C04_wcnf_unused_var_panics.
+Theorem C04_wcnf_nil_agrees :
+  forall solve, solver_ok solve ->
+  forall w, wf_wcnf w = true ->
+  match wcnf_optimal_chan solve w, wcnf_optimal_nil solve w with
+  | WDone r _, WDone r' s' => r' = r /\ s' = []
+  | _, _ => False
+  end.
+Proof. exact wcnf_nil_agrees. Qed.
+Print Assumptions C04_wcnf_nil_agrees.
+
+(* was: the relaxation variables leaked into the model returned by Optimal(nil, stop) *)
+Example C04_wcnf_nil_no_leak_ok :
+  wf_wcnf (WCNF 3 10 [[10; 1; 2; 0]; [3; -1; 0]; [2; -2; 0]; [1; 3; 0]]) = true /\
+  wcnf_optimal_nil_ref (WCNF 3 10 [[10; 1; 2; 0]; [3; -1; 0]; [2; -2; 0]; [1; 3; 0]]) =
+  WDone (OSat [false; true; true] 2) [].
+Proof. exact wcnf_nil_no_leak_ok. Qed.
+
+(* was: panic when every clause is hard and the last declared variable is unused *)
+Example C04_wcnf_unused_var_ok :
+  wf_wcnf (WCNF 3 10 [[10; 1; 2; 0]]) = true /\
+  wcnf_optimal_chan_ref (WCNF 3 10 [[10; 1; 2; 0]]) =
+  WDone (OSat [false; true; false] 0) [OSat [false; true; false] 0] /\
+  wcnf_optimal_nil_ref (WCNF 3 10 [[10; 1; 2; 0]]) = WDone (OSat [false; true; false] 0) [].
+Proof. exact wcnf_unused_var_ok. Qed.
 
 (* ---------------- examples (checked against the Go code) ---------------- *)
 
@@ -184,11 +196,23 @@ Example C04_ex2 :
   MSat [(1, false); (2, false); (3, false)] 3.
 Proof. vm_compute. reflexivity. Qed.
 
+(* negative, null and positive coefficients in a soft constraint *)
+Example C04_ex3 :
+  maxsat_ref [weighted_pb [1; 2; 3] [-2; 0; 3] 1 4; hard_clause [1]; hard_clause [-3]] =
+  MSat [(1, true); (2, false); (3, false)] 4.
+Proof. vm_compute. reflexivity. Qed.
+
+Example C04_ex4 :
+  maxsat_ref [weighted_pb [1; 2] [-1; -1] (-1) 5; weighted_pb [1; 2] [1; 1] 2 3;
+              soft_clause [-2; 3]; hard_pb [3; 1] [0; 0] 0] =
+  MSat [(1, false); (2, false); (3, false)] 3.
+Proof. vm_compute. reflexivity. Qed.
+
 Example C04_ex_unsat : maxsat_ref [hard_clause [1]; hard_clause [-1]; soft_clause [2]] = MUnsat.
 Proof. vm_compute. reflexivity. Qed.
 
-Example C04_wcnf_hyps : wf_wcnf (WCNF 3 10 [[10; 1; 2; 0]; [3; -1; 0]; [2; -2; 0]; [1; 3; 0]]) = true /\ wcnf_covers (WCNF 3 10 [[10; 1; 2; 0]; [3; -1; 0]; [2; -2; 0]; [1; 3; 0]]) = true.
-Proof. split; reflexivity. Qed.
+Example C04_wcnf_hyps : wf_wcnf (WCNF 3 10 [[10; 1; 2; 0]; [3; -1; 0]; [2; -2; 0]; [1; 3; 0]]) = true.
+Proof. reflexivity. Qed.
 
 Example C04_wcnf_ex1 :
   wcnf_optimal_chan_ref (WCNF 3 10 [[10; 1; 2; 0]; [3; -1; 0]; [2; -2; 0]; [1; 3; 0]]) =
@@ -204,4 +228,12 @@ Proof. vm_compute. reflexivity. Qed.
 (* weight >= top is hard *)
 Example C04_wcnf_ex_unsat :
   wcnf_optimal_chan_ref (WCNF 2 9 [[9; 1; 0]; [9; -1; 0]; [1; 2; 0]]) = WDone OUnsat [OUnsat].
+Proof. vm_compute. reflexivity. Qed.
+
+(* declared variables that no clause uses are part of the model *)
+Example C04_wcnf_ex_unused :
+  wcnf_optimal_chan_ref (WCNF 4 0 [[5; 1; 0]; [4; -1; 0]; [1; 2; 0]]) =
+  WDone (OSat [true; true; false; false] 4)
+    [OSat [false; false; false; false] 6; OSat [false; true; false; false] 5;
+     OSat [true; true; false; false] 4].
 Proof. vm_compute. reflexivity. Qed.
